@@ -534,7 +534,7 @@ def core_cfgs(q):
         ("core", gen.cfg_with(files=(1, 3), quarantine=q, p_twin=0.3, own_ns_default=0.3)),
         ("core-many-files", gen.cfg_with(files=(3, 4), quarantine=q, complex_per_file=(1, 3), own_ns_default=0.3)),
         ("core-keywords", gen.cfg_with(files=(1, 2), keyword_rate=0.35, quarantine=q)),
-        ("wsdl", gen.cfg_with(files=(1, 3), wsdl=True, quarantine=q, complex_per_file=(0, 2), simple_per_file=(0, 2))),
+        ("wsdl", gen.cfg_with(files=(1, 3), wsdl=True, quarantine=q, complex_per_file=(0, 2), simple_per_file=(0, 2), p_inline_schemas=0.4)),
     ]
 
 
@@ -543,10 +543,10 @@ def wsdl_cfgs(q):
         # attributes of named simple types are left out of the client profiles: yaserde can not read a struct-typed attribute
         # back (C04 counts that under its reference-struct exclusion), and here it would fail every response
         ("wsdl", gen.cfg_with(files=(1, 3), wsdl=True, quarantine=q, complex_per_file=(0, 2), simple_per_file=(0, 2), elements_per_file=(0, 1),
-                              attr_named_simple=False, avoid_nested_same_name=True)),
+                              attr_named_simple=False, avoid_nested_same_name=True, p_inline_schemas=0.4)),
         ("wsdl-keywords", gen.cfg_with(files=(1, 2), wsdl=True, quarantine=q, keyword_rate=0.3, complex_per_file=(0, 2), simple_per_file=(0, 2),
                                        elements_per_file=(0, 1), attr_named_simple=False, avoid_nested_same_name=True)),
-        ("wsdl-headers", gen.cfg_with(files=(1, 3), wsdl=True, quarantine=q, headers=(1, 3), p_parts_attr=0.3, complex_per_file=(0, 1), p_part_element_cross=0.5,
+        ("wsdl-headers", gen.cfg_with(files=(1, 3), wsdl=True, quarantine=q, headers=(1, 3), p_parts_attr=0.3, complex_per_file=(0, 1), p_part_element_cross=0.5, p_inline_schemas=0.4,
                                       simple_per_file=(0, 2), elements_per_file=(0, 1), ops=(1, 3), attr_named_simple=False, avoid_nested_same_name=True)),
     ]
 
